@@ -208,9 +208,11 @@ func checkC05(r *core.Run) {
 		guardOb(r, p, "R-C05-body", key, what, an.GuardSpec{Fn: post, Match: m, Fail: postFail})
 	}
 	gb("weight", "weight above 4,000,000 is rejected", an.MatchCmpConst(4000000, token.GTR, "~.BlockWeight"))
-	c05Weight(r, p)
+	c05Weight(r, p, "R-C05-body")
 	c05MerkleMutation(r, p)
 	c05HeightPush(r, p)
+	// the per-transaction checks run in goroutines the caller waits for (shared with C11)
+	wgDiscipline(r, p, "R-C05-body", "checkers-counted-before-start", func(path string) bool { return strings.HasSuffix(path, "lib/chain") })
 	gb("first-is-coinbase", "a first transaction that is not a coinbase is rejected", func(iff *ssa.If) (bool, bool) {
 		ok, f := an.MatchBoolCall(false, "(*lib/btc.Tx).IsCoinBase")(iff)
 		if !ok {
@@ -746,8 +748,7 @@ func keysOf(m map[int64]bool) []int64 {
 // c05Weight: the weight compared with the limit is 4*(80 + size of the transaction count) plus, for
 // every transaction, 3*size-without-witness + full size, on both paths of BuildTxListExt (with and
 // without hashing), whether it is accumulated in the field or in the workers' shared counter.
-func c05Weight(r *core.Run, p *core.Program) {
-	const rule = "R-C05-body"
+func c05Weight(r *core.Run, p *core.Program, rule string) {
 	fn := p.Func("lib/btc.(*Block).BuildTxListExt")
 	if fn == nil {
 		r.Fail(rule, "weight/formula", "-", "BuildTxListExt not found")
